@@ -4,70 +4,15 @@ C05 — property theorems: shared-value reference counting is sound under every 
 Model: `Model.lean` (one object of `steel_rc::BiasedRc`, any number of threads, every shared access
 an atomic step).  All theorems quantify over *every* schedule, i.e. every history of operations and
 every interleaving of their atomic steps, with no bound on the number of threads or steps.
+
+* safety (`rc_safe` and corollaries): invariant `Inv` (Lemmas.lean, Step*.lean, StepAll.lean);
+* "destroyed exactly once", liveness half (`no_leak_at_quiescence`, `destroyed_exactly_once`):
+  invariant `Inv2 = Inv ∧ Extra` (Live.lean, LiveStep*.lean), with the decided caveat
+  `unregistered_owner_parks_forever`;
+* no self-livelock (`op_completes_solo`, `merge_drains`): rank function of Solo.lean.
 -/
-import SteelVerif.C05.StepE
+import SteelVerif.C05.LockStep
 namespace SteelVerif.C05
-
-/-- Every step of the transition system preserves the invariant. -/
-theorem step_inv {s s' : State} {t : Tid} {a : Act} {o : Out} (h : Inv s)
-    (hs : step s t a = some (s', o)) : Inv s' := by
-  cases a with
-  | spawn => exact case_spawn h s' o hs
-  | _ =>
-    all_goals
-      cases hth : s.threads[t]? with
-      | none => simp [step, hth] at hs
-      | some th =>
-        cases hpc : th.pc
-        all_goals first
-          | exact case_new h hth hpc s' o hs
-          | exact case_clone h hth hpc s' o hs
-          | exact case_drop h hth hpc s' o hs
-          | exact case_move h hth hpc _ s' o hs
-          | exact case_unique h hth hpc s' o hs
-          | exact case_unwrap h hth hpc s' o hs
-          | exact case_count h hth hpc s' o hs
-          | exact case_register h hth hpc s' o hs
-          | exact case_merge h hth hpc s' o hs
-          | exact case_exit h hth hpc s' o hs
-          | exact case_incLoad h hth hpc s' o hs
-          | exact case_incCas _ h hth hpc s' o hs
-          | exact case_dfLoad _ h hth hpc s' o hs
-          | exact case_dfCas _ _ h hth hpc s' o hs
-          | exact case_dfSetNone _ h hth hpc s' o hs
-          | exact case_dsLoad _ h hth hpc s' o hs
-          | exact case_dsCas _ _ h hth hpc s' o hs
-          | exact case_enq _ h hth hpc s' o hs
-          | exact case_free _ h hth hpc s' o hs
-          | exact case_uqOwner h hth hpc s' o hs
-          | exact case_uqLoadNone h hth hpc s' o hs
-          | exact case_uqLoadOwn h hth hpc s' o hs
-          | exact case_uwOwner h hth hpc s' o hs
-          | exact case_uwLoadNone h hth hpc s' o hs
-          | exact case_uwCas _ h hth hpc s' o hs
-          | exact case_uwLoadOwn h hth hpc s' o hs
-          | exact case_uwFree _ h hth hpc s' o hs
-          | exact case_mgLoad _ _ _ h hth hpc s' o hs
-          | exact case_mgCas _ _ _ _ h hth hpc s' o hs
-          | exact case_mgSetNone _ _ _ h hth hpc s' o hs
-          | (simp [step, hth, hpc] at hs)
-
-/-- The invariant holds in every state reachable by any schedule. -/
-theorem run_inv (sched : List (Tid × Act)) : ∀ {s : State}, Inv s → Inv (run s sched) := by
-  induction sched with
-  | nil => intro s h; exact h
-  | cons x rest ih =>
-    intro s h
-    obtain ⟨t, a⟩ := x
-    simp only [run]
-    cases hs : step s t a with
-    | none => exact h
-    | some r => obtain ⟨s', o⟩ := r; exact ih (step_inv h hs)
-
-theorem inv_ok {s : State} (h : Inv s) : s.ok := by
-  obtain ⟨f1, f2, f3, f4⟩ := h.flags
-  refine ⟨f1, f2, f3, f4, ?_, h.frees.1⟩
-  rw [h.frees.2]; split <;> omega
 
 /-- **C05 (safety), full statement.**  For every history of create / clone / drop / move / unique
 access / unwrap / count / register / merge / thread-exit operations by any number of threads, and for
@@ -122,5 +67,231 @@ theorem example_history_frees_once :
 theorem example_unique_granted :
     (step (run init [(0, .spawn), (0, .new), (0, .unique), (0, .step)]) 0 .step).map (·.2) =
       some (.done "true") := by decide
+
+/-! ## Liveness half of "destroyed exactly once" -/
+
+/-- Every thread is between operations. -/
+def AllIdle (s : State) : Prop := ∀ th ∈ s.threads, th.pc = .idle
+
+instance (s : State) : Decidable (AllIdle s) := by unfold AllIdle; infer_instance
+
+theorem sumP_idle : ∀ (l : List Thread), (∀ th ∈ l, th.pc = .idle) → sumP l = 0 := by
+  intro l
+  induction l with
+  | nil => intro _; rfl
+  | cons a l ih =>
+    intro h
+    have ha := h a (List.mem_cons_self ..)
+    have := ih (fun th hm => h th (List.mem_cons_of_mem _ hm))
+    simp only [sumP, List.map_cons, List.sum_cons] at this ⊢
+    rw [this, ha]; rfl
+
+/-- The strengthened invariant excludes a quiescent leaked object. -/
+theorem inv2_no_leak {s : State} (h2 : Inv2 s) (hc : s.created = true) (hi : AllIdle s)
+    (hz : s.total = 0) : s.alive = false := by
+  obtain ⟨h, x⟩ := h2
+  cases ha : s.alive with
+  | false => rfl
+  | true =>
+    exfalso
+    have hcount := (h.count ha).2
+    cases hm : s.w.merged with
+    | true =>
+      obtain ⟨u, tu, hu, fu⟩ := x.freeing ha hm hz
+      have := hi tu (List.mem_of_getElem? hu)
+      rw [this] at fu; cases fu
+    | false =>
+      -- the owner still counts its own references on the fast path
+      have hown : s.owner ≠ none := by
+        intro hn; have := h.ownerNone hc hn; rw [hm] at this; cases this
+      cases ho : s.owner with
+      | none => exact hown ho
+      | some o =>
+        have hlt := h.ownerEx o ho
+        have hth : s.threads[o]? = some s.threads[o] := by simp [hlt]
+        have hidle := hi _ (List.mem_of_getElem? hth)
+        have hb : s.biased ≠ 0 := by
+          intro hb
+          have := ((h.thr o _ hth).own ho).2 hb
+          rw [hidle] at this; cases this
+        simp only [hm, hz] at hcount
+        have hneg : s.w.cnt < 0 := by
+          have : (s.biased : Int) + s.w.cnt = 0 := by simpa using hcount
+          omega
+        cases hq : s.w.queued with
+        | false => have := x.nonneg ha hm hq; omega
+        | true =>
+          have he := x.entry ha hm hq
+          have hP : s.gP = 0 := by rw [h.sums.2.2.2]; exact sumP_idle _ hi
+          simp only [State.total] at hz
+          omega
+
+/-- **C05 (liveness half).**  In every reachable state in which every thread is between operations
+and no counted reference exists anywhere - none held by a thread's variables, none in flight, none
+owned by a merge-queue entry - an object that was created has been destroyed. -/
+theorem no_leak_at_quiescence (sched : List (Tid × Act)) :
+    let s := run init sched
+    s.created = true → AllIdle s → s.total = 0 → s.alive = false := by
+  intro s hc hi hz
+  exact inv2_no_leak (run_inv2 sched inv2_init) hc hi hz
+
+/-- **C05, "destroyed exactly once".**  At quiescence without references the object has been freed,
+and its destructor run, exactly once. -/
+theorem destroyed_exactly_once (sched : List (Tid × Act)) :
+    let s := run init sched
+    s.created = true → AllIdle s → s.total = 0 → s.frees = 1 ∧ s.drops = 1 := by
+  intro s hc hi hz
+  have ha := no_leak_at_quiescence sched hc hi hz
+  have h : Inv s := run_inv sched inv_init
+  have hf := h.frees
+  exact ⟨by rw [hf.2, if_pos ⟨hc, ha⟩], by rw [hf.1, hf.2, if_pos ⟨hc, ha⟩]⟩
+
+/-- Non-vacuity of `no_leak_at_quiescence` / `destroyed_exactly_once`: the hypotheses hold in a
+reachable state (2 threads; create, clone, move, both drop - the remote one through the owner's
+queue -, owner merges). -/
+theorem example_quiescent_reachable :
+    let s := run init [(0, .spawn), (1, .spawn), (0, .register), (0, .new), (0, .clone),
+      (0, .move 1), (0, .drop), (1, .drop), (1, .step), (1, .step), (1, .step),
+      (0, .merge), (0, .step), (0, .step), (0, .step), (0, .step), (0, .step), (0, .step)]
+    s.created = true ∧ AllIdle s ∧ s.total = 0 ∧ s.frees = 1 := by decide
+
+/-- The documented caveat, decided: the owner never registered a merge queue, another thread's last
+drop is parked in `unregistered`, the owner drops its own reference and exits through
+`finish_thread_merge`.  Every thread is idle, no thread holds a reference, and the object stays alive:
+the parked entry is a counted reference (`total = 1`), so this is *not* a quiescent state in the sense
+of `no_leak_at_quiescence`; only `run_explicit_merge` on the owner thread reaches it (last conjunct). -/
+theorem unregistered_owner_parks_forever :
+    let s := run init [(0, .spawn), (1, .spawn), (0, .new), (0, .clone), (0, .move 1),
+      (1, .drop), (1, .step), (1, .step), (1, .step), (0, .drop), (0, .exit), (1, .exit)]
+    s.created = true ∧ AllIdle s ∧ s.gH = 0 ∧ s.gT = 0 ∧ s.alive = true ∧ s.total = 1 ∧
+      (s.threads.map (·.unregQ)) = [1, 0] ∧
+      (run s [(0, .merge), (0, .step), (0, .step), (0, .step), (0, .step), (0, .step),
+        (0, .step)]).frees = 1 := by decide
+
+/-! ## No self-livelock -/
+
+/-- **A thread scheduled alone completes its operation in at most 12 of its own steps**, from every
+reachable state and every program counter.  Compare-exchange loops therefore retry only after
+interference, and (in this one-object model) nothing ever waits for the dashmap guard - see
+`never_blocked_at_enqueue`. -/
+theorem op_completes_solo (sched : List (Tid × Act)) (t : Tid) (th : Thread) :
+    let s := run init sched
+    s.threads[t]? = some th →
+    ∃ k, k ≤ 12 ∧ ∃ th', (solo t k s).threads[t]? = some th' ∧ th'.pc = .idle := by
+  intro s hth
+  have h : Inv3 s := run_inv3 sched inv3_init
+  obtain ⟨k, hk, th', a, b, _⟩ := solo_completes3 t 12 h hth (rank_le h.inv2.inv hth)
+  exact ⟨k, hk, th', a, b⟩
+
+/-- The dashmap guard of `run_explicit_merge` is held exactly by a thread that is inside it. -/
+theorem guard_holder_is_merging (sched : List (Tid × Act)) (t : Tid) (th : Thread) :
+    let s := run init sched
+    s.threads[t]? = some th → (s.lock = some t ↔ lkpc th.pc = true) := by
+  intro s hth
+  exact ((run_inv3 sched inv3_init : Inv3 s).lock.own t th hth).symm
+
+/-- `enqueue` never finds the guard taken: while a reference is on its way into a merge queue no thread
+is inside `run_explicit_merge` (with a single object the only queue entry cannot be in both hands).
+With several objects the real code can block here; that is waiting for a lock, outside this model. -/
+theorem never_blocked_at_enqueue (sched : List (Tid × Act)) (t : Tid) :
+    ¬ BlockedAtEnqueue (run init sched) t := by
+  rintro ⟨th, r, hth, hpc, hsome, _⟩
+  have := (run_inv3 sched inv3_init : Inv3 (run init sched)).lock.enq_free hth hpc
+  rw [this] at hsome; cases hsome
+
+/-- Non-vacuity of `guard_holder_is_merging` / `never_blocked_at_enqueue`: the guard *is* held in a
+reachable state (the owner parked inside `run_explicit_merge` with the entry a remote drop queued),
+and a thread *is* parked at `enqueue` in another one (then nobody holds the guard). -/
+theorem example_guard_held :
+    let s := run init [(0, .spawn), (1, .spawn), (0, .register), (0, .new), (0, .clone),
+      (0, .move 1), (1, .drop), (1, .step), (1, .step), (1, .step), (0, .merge)]
+    let s2 := run init [(0, .spawn), (1, .spawn), (0, .register), (0, .new), (0, .clone),
+      (0, .move 1), (1, .drop), (1, .step), (1, .step)]
+    s.lock = some 0 ∧ (s.threads[0]?.map (fun th => lkpc th.pc)) = some true ∧
+    (s2.threads[1]?.map (fun th => isEnq th.pc)) = some true ∧ s2.lock = none := by decide
+
+/-- What the first line of `run_explicit_merge` / `finish_thread_merge` leaves behind. -/
+theorem merge_start {s s1 : State} {t : Tid} {a : Act} {o : Out} (ha : a = .merge ∨ a = .exit)
+    (hs : step s t a = some (s1, o)) :
+    ∃ th1, s1.threads[t]? = some th1 ∧ th1.regQ = 0 ∧ (a = .merge → th1.unregQ = 0) ∧
+      (th1.pc = .idle ∨ LockOK s1 t th1.pc) := by
+  cases hth : s.threads[t]? with
+  | none => rcases ha with rfl | rfl <;> simp [step, hth] at hs
+  | some th =>
+    cases hpc : th.pc
+    case idle =>
+      rcases ha with rfl | rfl
+      · simp only [step, hth, hpc] at hs
+        split at hs
+        · cases hs
+        · rename_i hlk
+          split at hs
+          · simp only [finish, Option.some.injEq, Prod.mk.injEq] at hs
+            obtain ⟨rfl, _⟩ := hs
+            exact ⟨_, put_get_same hth _, rfl, fun _ => rfl, Or.inl rfl⟩
+          · simp only [park, Option.some.injEq, Prod.mk.injEq] at hs
+            obtain ⟨rfl, _⟩ := hs
+            exact ⟨_, put_get_same (s := { s with lock := some t }) hth _, rfl, fun _ => rfl,
+              Or.inr (Or.inr ⟨rfl, rfl⟩)⟩
+      · simp only [step, hth, hpc] at hs
+        split at hs
+        · cases hs
+        · rename_i hlk
+          have hlk : s.lock = none := by
+            cases hl : s.lock with
+            | none => rfl
+            | some u => rw [hl] at hlk; simp at hlk
+          split at hs
+          · simp only [finish, Option.some.injEq, Prod.mk.injEq] at hs
+            obtain ⟨rfl, _⟩ := hs
+            exact ⟨_, put_get_same hth _, rfl, fun hx => (by cases hx), Or.inl rfl⟩
+          · simp only [park, Option.some.injEq, Prod.mk.injEq] at hs
+            obtain ⟨rfl, _⟩ := hs
+            exact ⟨_, put_get_same hth _, rfl, fun hx => (by cases hx), Or.inr (Or.inl hlk)⟩
+    all_goals (rcases ha with rfl | rfl <;> simp [step, hth, hpc] at hs)
+
+/-- **`merge` / `exit` drain the queue.**  After `run_explicit_merge` (resp. `finish_thread_merge`)
+of a thread, run to completion alone (at most 12 further steps), its registered queue - and for
+`run_explicit_merge` also what was parked for it in `unregistered` - is empty: every entry was merged,
+none re-queued. -/
+theorem merge_drains (sched : List (Tid × Act)) (t : Tid) (a : Act) (ha : a = .merge ∨ a = .exit) :
+    let s := run init sched
+    ∀ s1 o, step s t a = some (s1, o) →
+    ∃ k, k ≤ 12 ∧ ∃ th', (solo t k s1).threads[t]? = some th' ∧ th'.pc = .idle ∧ th'.regQ = 0 ∧
+      (a = .merge → th'.unregQ = 0) := by
+  intro s s1 o hs
+  have h1 : Inv s1 := step_inv (run_inv sched inv_init) hs
+  obtain ⟨th1, hth1, q1, q2, hl⟩ := merge_start ha hs
+  obtain ⟨k, hk, th', a', b, c, d, _⟩ := solo_completes t 12 h1 hth1 hl (rank_le h1 hth1)
+  exact ⟨k, hk, th', a', b, by rw [c, q1], fun hm => by rw [d, q2 hm]⟩
+
+/-- Non-vacuity of `op_completes_solo`: a remote drop parked at its compare-exchange, whose expected
+value went stale because a third thread cloned in between, needs the retry and then completes alone:
+2 steps, not fewer. -/
+theorem example_solo_retry :
+    let s := run init [(0, .spawn), (1, .spawn), (2, .spawn), (0, .register), (0, .new), (0, .clone),
+      (0, .clone), (0, .move 1), (0, .move 2), (1, .drop), (1, .step), (2, .clone), (2, .step),
+      (2, .step)]
+    (s.threads[1]?.map (·.pc) = some (.dsCas .op ⟨0, false, false⟩)) ∧ s.w = ⟨1, false, false⟩ ∧
+    s.lock = none ∧
+    ((solo 1 1 s).threads[1]?.map (·.pc) ≠ some .idle) ∧
+    ((solo 1 2 s).threads[1]?.map (·.pc) = some .idle) := by decide
+
+/-- The longest solo run of the generated schedules' shape: the owner's last drop of an object nobody
+else holds (load, compare-exchange, clear the owner, load, compare-exchange, free) takes exactly 6
+steps after the one that starts it, and destroys the object. -/
+theorem example_solo_last_drop :
+    let s := run init [(0, .spawn), (0, .new), (0, .drop)]
+    ((solo 0 5 s).threads[0]?.map (·.pc) ≠ some .idle) ∧
+    ((solo 0 6 s).threads[0]?.map (·.pc) = some .idle) ∧ (solo 0 6 s).frees = 1 := by decide
+
+/-- Non-vacuity of `merge_drains`: the owner's registered queue holds an entry, `merge` is
+executable, and after it has run alone the queue is empty and the object destroyed. -/
+theorem example_merge_drains :
+    let s := run init [(0, .spawn), (1, .spawn), (0, .register), (0, .new), (0, .clone),
+      (0, .move 1), (0, .drop), (1, .drop), (1, .step), (1, .step), (1, .step)]
+    (s.threads.map (·.regQ)) = [1, 0] ∧
+    ((step s 0 .merge).map (fun p => ((solo 0 6 p.1).threads.map (·.regQ), (solo 0 6 p.1).frees))) =
+      some ([0, 0], 1) := by decide
 
 end SteelVerif.C05
